@@ -266,6 +266,56 @@ func (it *Interp) localMatMethod(m *LocalMat, name string, call *ast.CallExpr) V
 		}
 	case "ElementType":
 		return &OpaqueVal{"scalartype"}
+	case "CloneMatrix", "CloneConstMatrix", "CloneMagicMatrix":
+		r := &LocalMat{Rows: m.Rows, Cols: m.Cols, Cells: map[string]*Loc{}}
+		for k, c := range m.Cells {
+			r.Cells[k] = it.newLoc("cell", c.Val)
+		}
+		return r
+	case "ConstCol", "ConstRow":
+		// read-only views share the element locations
+		k, ok := constIndex(it.evalTerm(call.Args[0]))
+		if !ok {
+			it.undecided(call.Pos(), "local matrix row/column index is not a constant")
+		}
+		n := m.Rows
+		if name == "ConstRow" {
+			n = m.Cols
+		}
+		v := &LocalVec{Len: sym.Int(int64(n)), Cells: map[string]*Loc{}}
+		for i := 0; i < n; i++ {
+			if name == "ConstCol" {
+				v.Cells[sym.Int(int64(i)).String()] = m.Cells[matKey(i, k)]
+			} else {
+				v.Cells[sym.Int(int64(i)).String()] = m.Cells[matKey(k, i)]
+			}
+		}
+		return v
+	case "SwapRows", "SwapColumns":
+		a, ok1 := constIndex(it.evalTerm(call.Args[0]))
+		b, ok2 := constIndex(it.evalTerm(call.Args[1]))
+		if !ok1 || !ok2 {
+			it.undecided(call.Pos(), "local matrix swap index is not a constant")
+		}
+		if name == "SwapRows" {
+			for j := 0; j < m.Cols; j++ {
+				m.Cells[matKey(a, j)], m.Cells[matKey(b, j)] = m.Cells[matKey(b, j)], m.Cells[matKey(a, j)]
+			}
+		} else {
+			for i := 0; i < m.Rows; i++ {
+				m.Cells[matKey(i, a)], m.Cells[matKey(i, b)] = m.Cells[matKey(i, b)], m.Cells[matKey(i, a)]
+			}
+		}
+		return NilVal{}
+	}
+	if it.cfg.Borrow != nil {
+		if fd, info := it.cfg.Borrow("matrix", name); fd != nil && fd.Body != nil {
+			var args []Value
+			for _, a := range call.Args {
+				args = append(args, it.eval(a))
+			}
+			return it.inlineCall(fd, info, m, args, call.Pos())
+		}
 	}
 	it.undecided(call.Pos(), "method %s on a local matrix", name)
 	return nil
@@ -280,4 +330,69 @@ func NewLocalMatOn(it *Interp, rows, cols int) *LocalMat {
 		}
 	}
 	return m
+}
+
+// concreteLoop executes a for loop concretely while its condition is decided: downward loops, cycle-following loops
+// (`for j := i; !done[j]; j = pi[j]`) and counted loops over constants. Returns false, without having run the body, if
+// the condition is not decided at entry (the symbolic treatment takes over).
+func (it *Interp) concreteLoop(x *ast.ForStmt) bool {
+	if x.Cond == nil {
+		return false
+	}
+	it.env = append(it.env, map[types.Object]Value{})
+	pop := func() {
+		if len(it.env) > 0 {
+			it.env = it.env[:len(it.env)-1]
+		}
+	}
+	if x.Init != nil {
+		if as, ok := x.Init.(*ast.AssignStmt); ok && len(as.Rhs) == 1 {
+			// iterator loops are not concrete
+			if _, isCall := ast.Unparen(as.Rhs[0]).(*ast.CallExpr); isCall {
+				pop()
+				return false
+			}
+		}
+		it.stmt(x.Init)
+	}
+	decided := func() (bool, bool) {
+		c := it.evalBool(x.Cond)
+		for c != nil && !c.Known && c.Op == "not" && c.L != nil && c.L.Known {
+			c = &BoolVal{Known: true, V: !c.L.V}
+		}
+		if c == nil || !c.Known {
+			return false, false
+		}
+		return c.V, true
+	}
+	v, ok := decided()
+	if !ok {
+		pop()
+		return false
+	}
+	defer pop()
+	it.unrolled++
+	defer func() { it.unrolled-- }()
+	for n := 0; v && !it.done; n++ {
+		if n > 4096 {
+			it.undecided(x.Pos(), "concrete loop does not terminate within 4096 cycles")
+		}
+		it.block(x.Body.List)
+		if it.ctl == "break" {
+			it.ctl = ""
+			break
+		}
+		it.ctl = ""
+		if it.done {
+			break
+		}
+		if x.Post != nil {
+			it.stmt(x.Post)
+		}
+		v, ok = decided()
+		if !ok {
+			it.undecided(x.Pos(), "loop condition becomes data-dependent")
+		}
+	}
+	return true
 }
